@@ -320,7 +320,7 @@ def replay_long_variable(ctx, case):
 
 
 def run_shard(ctx):
-    d = drive.Driver(ctx, feat, flags="random", styles=("runs", "runs", "tiny", "mixed", "multisec"), judge_model=False, extra=monitor)
+    d = drive.Driver(ctx, feat, flags="random", styles=("runs", "runs", "tiny", "mixed", "multisec", "kernel"), judge_model=False, extra=monitor)
     d.loop(2500, 250000)
     long_listing_stratum(ctx, d.ws, ctx.share(48, 800))
     long_variable_stratum(ctx, d.ws, ctx.share(32, 600))
